@@ -97,20 +97,8 @@ theorem checked_div_rounded_eq (prof : Profile) (tm : Mode) (a : Int) (p : Nat) 
               | panic k' => rfl
               | ok t16 =>
                 simp only [bind_ok', i128_div_rounded_eq prof tm t16 _ none (plainI128_fits prof _ _ h16)]
-      by_cases hb : b < 0
-      · simp only [hb, decide_true, if_true]
-        cases hn1 : negI128 prof a with
-        | panic k => rfl
-        | ok a' =>
-          cases hn2 : negI128 prof b with
-          | panic k => rfl
-          | ok b' =>
-            simp only [bind_ok', i128_div_mod_floor_eq]
-            have := tail (i128DivModFloor prof a' b')
-              (fun qu re h => divModFloor_fits prof a' b' qu re (plainI128_fits prof _ _ hn1) h)
-            simpa only [bind_ok', pure_eq'] using this
-      · simp only [hb, decide_false, Bool.false_eq_true, if_false, i128_div_mod_floor_eq]
-        have := tail (i128DivModFloor prof a b) (fun qu re h => divModFloor_fits prof a b qu re ha h)
-        simpa only [bind_ok', pure_eq'] using this
+      simp only [i128_div_mod_floor_eq]
+      have := tail (i128DivModFloor prof a b) (fun qu re h => divModFloor_fits prof a b qu re ha h)
+      simpa only [bind_ok', pure_eq'] using this
 
 end Fpdec.Kernels
